@@ -108,6 +108,10 @@ class Alg:
                 return self.interp(args[0])
             if last in ITER_ADAPTERS and len(args) == 1:
                 return self.interp(args[0])
+            if last in ("pre", "post", "var_pre", "var_post") and "SymbolicAsyncGraph" in str(path) and args:
+                # images are strict: the image of the empty set is empty
+                if self.equivalent(self.interp(args[-1]), FALSE):
+                    return FALSE
             return ("atom", ("call", opkey(path), tuple(self.canon(a) for a in args)))
         if k == "rec":
             return ("atom", ("rec", opkey(t[1]), tuple(self.canon(a) for a in t[2])))
@@ -124,7 +128,10 @@ class Alg:
             b = self.bound.get((t[1], t[2]))
             return ("atom", ("X", b) if b is not None else ("loopvar", t[1], t[2]))
         if k == "mu":
-            return ("atom", self.canon_mu(t))
+            key = self.canon_mu(t)
+            if key[0] == "const":
+                return self.interp(t[3])
+            return ("atom", key)
         if k == "param":
             return ("atom", ("param", t[1]))
         if k == "elem":
@@ -157,6 +164,14 @@ class Alg:
         try:
             xe = ("atom", ("X", level))
             ie = self.interp(init)
+            # an iteration that is already stationary at its initial value is that value
+            try:
+                import terms as _t
+                at_init = self.interp(_t.replace(step, ("loopvar", lid, name), init))
+                if self.equivalent(at_init, ie):
+                    return ("const", self.sig(ie))
+            except (ValueError, RecursionError):
+                pass
             alts = [self.interp(a) for a in self.step_alternatives(step)]
             keep = [a for a in alts if not self.equivalent(a, xe)]
             if not keep:
